@@ -85,14 +85,14 @@ def canon(ctx):
     for s in sorts:
         # the sort applies to the identifier vector parameter and dominates every write of an identifier
         roots = [r for r in root_descr(fp, s.args[0]) if r[0] == 'param']
-        ctx.check(any(fp.var_name(r[1]) == 'attribute_ids' for r in roots) or bool(roots), fp.key, 'sort(attribute_ids)',
+        ctx.check(bool(roots), fp.key, 'sort(attribute_ids)',
                   'the sort is not applied to the identifier vector', 'sorts the parameter', s.where())
         ws = fp.calls(r'Serializer::write_leb128_u64$', r'Serializer::write')
         ctx.check(bool(ws) and all(fp.block_dominates(s.b, w.b) for w in ws), fp.key, 'sort dominates encoding',
                   'an identifier is encoded before the vector is sorted', 'sort dominates %d encoding call(s)' % len(ws), s.where())
         for w in ws:
             sl = backward_slice(fp, [w.args[1]], follow_mutarg=False)
-            ctx.check(any(fp.var_name(p) == 'attribute_ids' for p in sl.params) or bool(sl.params), fp.key, 'encodes sorted ids',
+            ctx.check(bool(sl.params), fp.key, 'encodes sorted ids',
                       'the encoded value does not come from the (sorted) identifier vector', 'value <- attribute_ids', w.where())
     # constructors of Right
     n = 0
